@@ -302,3 +302,6 @@ mod tests {
         }
     }
 }
+
+#[cfg(kani)]
+pub(crate) mod verif_kani;
